@@ -5,8 +5,10 @@ import (
 	"go/constant"
 	"go/token"
 	"go/types"
+	"regexp/syntax"
 	"strings"
 
+	"golang.org/x/tools/go/packages"
 	"golang.org/x/tools/go/types/typeutil"
 )
 
@@ -422,4 +424,70 @@ func LastField(info *types.Info, e ast.Expr) *types.Var {
 			return nil
 		}
 	}
+}
+
+// RegexMinLen returns the length of the shortest string the pattern can match.
+func RegexMinLen(pattern string) (int, bool) {
+	re, err := syntax.Parse(pattern, syntax.Perl)
+	if err != nil {
+		return 0, false
+	}
+	var min func(r *syntax.Regexp) int
+	min = func(r *syntax.Regexp) int {
+		switch r.Op {
+		case syntax.OpLiteral:
+			return len(r.Rune)
+		case syntax.OpCharClass, syntax.OpAnyCharNotNL, syntax.OpAnyChar:
+			return 1
+		case syntax.OpCapture:
+			return min(r.Sub[0])
+		case syntax.OpConcat:
+			n := 0
+			for _, s := range r.Sub {
+				n += min(s)
+			}
+			return n
+		case syntax.OpAlternate:
+			best := -1
+			for _, s := range r.Sub {
+				if m := min(s); best < 0 || m < best {
+					best = m
+				}
+			}
+			if best < 0 {
+				best = 0
+			}
+			return best
+		case syntax.OpPlus:
+			return min(r.Sub[0])
+		case syntax.OpRepeat:
+			return r.Min * min(r.Sub[0])
+		default: // star, quest, anchors, empty match, word boundaries
+			return 0
+		}
+	}
+	return min(re), true
+}
+
+// PackageVarInit returns the initialiser expression of a package-level variable of pkg.
+func PackageVarInit(pkg *packages.Package, v *types.Var) ast.Expr {
+	if v == nil || pkg == nil || pkg.Types != v.Pkg() {
+		return nil
+	}
+	var out ast.Expr
+	for _, f := range pkg.Syntax {
+		ast.Inspect(f, func(n ast.Node) bool {
+			vs, ok := n.(*ast.ValueSpec)
+			if !ok {
+				return true
+			}
+			for i, nm := range vs.Names {
+				if pkg.TypesInfo.Defs[nm] == v && i < len(vs.Values) {
+					out = vs.Values[i]
+				}
+			}
+			return true
+		})
+	}
+	return out
 }
